@@ -315,9 +315,9 @@ func showVal(leaf *pqfile.Node, v pqfile.Val) string {
 }
 
 func runC12(c *Ctx) {
-	files := 30
+	files := 900
 	if c.Thorough {
-		files = 600
+		files = 30000
 	}
 	for _, sh := range c.SelShapes() {
 		s := sh.Schema()
@@ -330,6 +330,9 @@ func runC12(c *Ctx) {
 					}
 					rng := Rng(c.Seed, "c12/"+id)
 					n := 1 + rng.Intn(14)
+					if k%16 == 7 {
+						n = 100 + rng.Intn(400) // pages of hundreds of values
+					}
 					var recs []*dremel.Tree
 					ch := chooser(rngChooser{rng})
 					if k%5 == 4 {
@@ -340,6 +343,9 @@ func runC12(c *Ctx) {
 					}
 					part := RandomPartition(n, rng)
 					page := []int{1, 2, 3, 5, 1000}[rng.Intn(5)]
+					if n >= 100 {
+						page = []int{7, 64, 1000}[rng.Intn(3)]
+					}
 					cs := &RTCase{ID: id, Shape: sh, Recs: recs, Partition: part, Page: page, Codec: codec}
 					c.Out.Count("cases", 1)
 					file, ok := WriteCase(c, cs, false)
